@@ -165,3 +165,56 @@ Proof.
   pose proof (slot_closed m' ltac:(lia)) as E1. rewrite <- Em' in E1. rewrite Z2Nat.id in E1 by lia.
   rewrite Em, <- E in E1. rewrite Em' in E1. lia.
 Qed.
+
+(** ** the boolean predicates of MsPqBrc hold for EVERY capacity 2^k - 1 (k <= 61) *)
+Lemma nodupb_of_NoDup l : NoDup l -> nodupb l = true.
+Proof.
+  induction 1 as [|x l Hx Hnd IH]; [reflexivity|]. cbn [nodupb]. rewrite IH, andb_true_r. apply negb_true_iff.
+  destruct (existsb (Nat.eqb x) l) eqn:E; [|reflexivity]. exfalso. apply existsb_exists in E. destruct E as (y & Hy & Ey).
+  apply Nat.eqb_eq in Ey. subst y. contradiction.
+Qed.
+
+Lemma brc_eqb_refl a : brc_eqb a a = true.
+Proof. unfold brc_eqb. rewrite !Z.eqb_refl. reflexivity. Qed.
+
+Lemma cap_lt_lim k : (k <= 61)%nat -> Z.of_nat (2 ^ k - 1) < lim /\ Z.of_nat (2 ^ k) = 2 ^ Z.of_nat k /\ 2 ^ Z.of_nat k <= 2 ^ 61 /\ 2 ^ 61 < lim /\ (1 <= 2 ^ k)%nat.
+Proof.
+  intros Hk. assert (Hp : Z.of_nat (2 ^ k) = 2 ^ Z.of_nat k) by apply of_nat_pow2.
+  assert (Hlt : 2 ^ Z.of_nat k <= 2 ^ 61) by (apply Z.pow_le_mono_r; lia).
+  assert (H61 : 2 ^ 61 < lim) by (unfold lim; apply Z.pow_lt_mono_r; lia).
+  assert (1 <= 2 ^ k)%nat by apply pow2_nat_pos. repeat split; try assumption. lia.
+Qed.
+
+Theorem slots_ok_all (k : nat) : (k <= 61)%nat -> slots_ok (2 ^ k - 1) = true.
+Proof.
+  intros Hk. destruct (cap_lt_lim k Hk) as (Hcap & Hp & Hlt & H61 & H1). set (cap := (2 ^ k - 1)%nat) in *.
+  unfold slots_ok. cbv zeta. rewrite !andb_true_iff. split; [split; [split|]|].
+  - apply forallb_forall. intros [n s] Hin. apply in_slist in Hin. destruct Hin as [Hn ->]. cbn [snd].
+    pose proof (slot_range_all k n Hk Hn). apply andb_true_iff. split; apply Nat.leb_le; lia.
+  - rewrite map_snd_slist. apply nodupb_of_NoDup. apply NoDup_map_inj_on; [|apply seq_NoDup].
+    intros x y Hx Hy E. apply in_seq in Hx, Hy. apply slot_inj_all; try lia; exact E.
+  - apply forallb_forall. intros n Hn. apply in_seq in Hn. destruct n as [|m]; [lia|]. cbn [pred].
+    rewrite (dec_st_all m ltac:(lia)). apply brc_eqb_refl.
+  - apply forallb_forall. intros i Hi. apply in_seq in Hi. apply existsb_exists.
+    pose proof (prefix_closed (Z.of_nat k) (Z.of_nat i) ltac:(lia) ltac:(lia)) as R.
+    set (n := Z.to_nat (slot_of (Z.of_nat i))).
+    exists (n, slot n). split; [apply in_slist; split; [unfold n; lia|reflexivity]|]. cbn [snd]. apply Nat.eqb_eq.
+    destruct n as [|n'] eqn:En; [unfold n in En; lia|].
+    pose proof (slot_closed n' ltac:(unfold n in En; lia)) as E. rewrite <- En in E. unfold n in E at 2. rewrite Z2Nat.id in E by lia.
+    rewrite slot_of_involutive in E by lia. rewrite En in E. lia.
+Qed.
+
+Theorem shape_ok_all (k : nat) : (k <= 61)%nat -> shape_ok (2 ^ k - 1) = true.
+Proof.
+  intros Hk. destruct (cap_lt_lim k Hk) as (Hcap & Hp & Hlt & H61 & H1). set (cap := (2 ^ k - 1)%nat) in *.
+  unfold shape_ok. cbv zeta. rewrite andb_true_iff. split.
+  - apply forallb_forall. intros [n s] Hin. apply in_slist in Hin. destruct Hin as [Hn ->]. cbn [fst snd].
+    apply orb_true_iff. destruct (Nat.ltb_spec n 2) as [|Hn2]; [left; reflexivity|right].
+    destruct (slot_parent_all n Hn2 ltac:(lia)) as (m & Hm & Em). apply existsb_exists. exists (m, slot m).
+    split; [apply in_slist; split; [lia|reflexivity]|]. cbn [fst snd]. apply andb_true_iff. split; [apply Nat.ltb_lt; lia|apply Nat.eqb_eq; exact Em].
+  - apply forallb_forall. intros [n s] Hin. apply in_slist in Hin. destruct Hin as [Hn ->]. cbn [fst snd].
+    apply orb_true_iff. destruct (Nat.odd (slot n) && Nat.leb 3 (slot n)) eqn:Ec; [right|left; reflexivity].
+    apply andb_true_iff in Ec. destruct Ec as [Eo E3]. apply Nat.leb_le in E3.
+    destruct (slot_left_all n ltac:(lia) ltac:(lia) Eo E3) as (m & Hm & Em). apply existsb_exists. exists (m, slot m).
+    split; [apply in_slist; split; [lia|reflexivity]|]. cbn [fst snd]. apply andb_true_iff. split; [apply Nat.ltb_lt; lia|apply Nat.eqb_eq; exact Em].
+Qed.
